@@ -24,7 +24,8 @@ PROP = dict(
                floors={"reference:assign": 10000, "reference:move": 10000, "reference:detach": 10000, "reference:copy-at-max": 10000,
                        "monitor:reference-checks": 100000, "metatype::basic": 1000, "metatype::generic": 1000,
                        "metatype::value<double>": 1000, "monitor:cxxmeta-checks": 50000, "monitor:destructor-events": 10000,
-                       "itemarray_append": 20000, "itemarray_append:name-refused": 1000, "monitor:itemarray-checks": 100000})],
+                       "itemarray_append": 20000, "itemarray_append:name-refused": 1000, "monitor:itemarray-checks": 100000,
+                       "graph:bind": 20000, "graph:bind-refused": 2000, "state:bind-with-axis-in-two-items": 2000, "monitor:graph-checks": 100000})],
     rule=("case = 70 raw-counter cases (start values 0,1,2,3,MAX-2,MAX-1,MAX), or one PRNG history on shared buffers (4 handles), on one "
           "metatype kind (addref/unref/clone/addref-at-maximum), or of reference replacements through conversion; non-trivial = a buffer "
           "reached >= 2 handles / an addref succeeded or a clone was created / every assignment history / raw start value != 0; "
